@@ -40,6 +40,8 @@ var props = map[string]propSpec{
 		Scenarios: []scenarioBudget{{Name: "c17", QuickSec: 40, ThoroughSec: 900}}},
 	"C18": {ID: "C18", Level: "exploration", Rule: ruleCommon, Assume: append(append([]string{}, commonAssume...), "the Transport under the Client is a scripted fake RoundTripper; detection bound used by the oracle: 1 simulated second (10x the detector period)"),
 		Scenarios: []scenarioBudget{{Name: "c18", QuickSec: 40, ThoroughSec: 900}}},
+	"C08": {ID: "C08", Level: "fault_enumeration", Rule: ruleCommon + "; run index mod 4: 0 = burst of 1..64 well-formed requests followed at once by a disconnect, 1 = adversarial server (truncated / corrupted / duplicated / unsolicited / random responses), 2,3 = enumerated mutations of every corpus frame kind (call, ping, stream open/message/close) under each header encoder: every truncation, every single-byte corruption (8 values quick, all 255 thorough) and every upgrade byte 0..255, six per run, each followed by a well-formed probe", Assume: commonAssume,
+		Scenarios: []scenarioBudget{{Name: "c08", QuickSec: 45, ThoroughSec: 1500}}},
 	"C06": {ID: "C06", Level: "exploration", Rule: ruleCommon, Assume: commonAssume,
 		Scenarios: []scenarioBudget{{Name: "c06", QuickSec: 40, ThoroughSec: 900}}},
 }
